@@ -144,9 +144,47 @@ def exc_site(exc) -> str:
     return site
 
 
-def compute(only_ops=None):
+CAST_TARGETS = [pc.Int8(), pc.Int16(), pc.Int32(), pc.Int64(), pc.UInt8(), pc.UInt16(), pc.UInt32(), pc.UInt64(), pc.Float32(), pc.Float64(), pc.String(), pc.Date(), pc.Datetime()]
+
+
+def compute_casts(tables, outcomes, viol):
+    """explicit casts (not operators): every source column x every target the type checker accepts"""
+    n = 0
+    for cname in ("i", "f", "s", "b", "d", "dt"):
+        for tgt in CAST_TARGETS:
+            for be, tbl in tables.items():
+                key = f"cast|{cname}->{type(tgt).__name__}|{be}|mutate"
+                try:
+                    q = tbl >> pdt.mutate(z=tbl[cname].cast(tgt))
+                except T.DataTypeError:
+                    break  # not a valid cast (same verdict on every back end)
+                except Exception as e:  # noqa: BLE001
+                    outcomes[key] = "verb!" + type(e).__name__
+                    continue
+                n += 1
+                if be == "polars":
+                    r = sql_outcome(lambda q=q: q >> pdt.export(pdt.Polars(lazy=True)))
+                    outcomes[key] = "plan" if r[0] == "ok" else "!" + r[1]
+                    if r[0] != "ok" and r[1] != "NotSupportedError" and not (type(r[2]).__module__ or "").startswith("polars"):
+                        viol.append(dict(oracle="O19.4", op="cast", sig=key, what=f"polars: cast {cname}->{tgt} raised {r[1]}: {str(r[2])[:120]}", features=dict(kind="impl", cls=r[1], be=be, verb="mutate", site=exc_site(r[2]))))
+                    continue
+                r = sql_outcome(lambda q=q: q >> pdt.build_query())
+                if r[0] != "ok":
+                    outcomes[key] = "!" + r[1]
+                    if r[1] not in ("NotSupportedError", "SubqueryError"):
+                        viol.append(dict(oracle="O19.4", op="cast", sig=key, what=f"{be}: build_query with cast {cname}->{tgt} raised {r[1]}: {str(r[2])[:140]}", features=dict(kind="impl", cls=r[1], be=be, verb="mutate", site=exc_site(r[2]))))
+                    continue
+                outcomes[key] = hashlib.sha1(r[1].encode()).hexdigest()[:12]
+    return n
+
+
+def compute(only_ops=None, order=None):
     """-> (outcomes {key: outcome}, violations [...])"""
     tables = make_tables()
+    if order:
+        # compile on the back ends in this configuration's first-use order (state shared between
+        # dialects would make the text depend on it)
+        tables = {be: tables[be] for be in order if be in tables}
     outcomes = {}
     viol = []
     n_cases = 0
@@ -220,6 +258,8 @@ def compute(only_ops=None):
                         if r2[0] != "ok" or r2[1] != q1:
                             viol.append(dict(oracle="O19.2", op=name, sig=sigkey, what=f"{be}: two build_query calls for `{name}`({sigkey}) differ", features=dict(kind="repeat", be=be)))
                         outcomes[key] = hashlib.sha1(q1.encode()).hexdigest()[:12]
+    if not only_ops or "cast" in only_ops:
+        n_cases += compute_casts(tables, outcomes, viol)
     return outcomes, viol, n_cases
 
 
@@ -256,7 +296,7 @@ def worker(job, out):
     for perm in job["perms"]:
         n_perm = seams.permute_declaration_order(perm)
         t1 = time.time()
-        outcomes, viol, n_cases = compute(job.get("only_ops"))
+        outcomes, viol, n_cases = compute(job.get("only_ops"), order=job.get("first_use"))
         dig = digest_by_op(outcomes)
         cnt = {}
         for v in outcomes.values():
